@@ -92,6 +92,16 @@ LOADS = {
     'c-import-use': ['%import vfq_a', '<pa/>', '<pe/>'.replace('pe', 'pa x')],
     'c-import-b': ['%import vfq_b', '<pb/>', '<pc sa/>'],
     'c-bad': ['<pa/>'],
+    'c-import-ab': ['%import vfq_a', '%import vfq_b', '<pa/>', '<pb/>'],
+    'c-import-ba': ['%import vfq_b', '<pc sa/>', '%import vfq_a'],
+    # a load with a pending override for a later section while sections of imported types start
+    'ovr': ['%import vfq_a', ['<', W('t'), '/>'], '<tb zz>', '</tb>', ['<', W('u'), ' nn/>']],
+    'ovr-imported': ['%import vfq_a', ['<', W('t'), ' nn>'], ['</', ['=', 't'], '>'], '<tb/>'],
+}
+# overrides passed with a load, and the same text edited by hand (what the oracle reads)
+OVERRIDES = {
+    'ovr': (['zz/kb=o1'], ['%import vfq_a', ['<', W('t'), '/>'], '<tb zz>', 'kb o1', '</tb>', ['<', W('u'), ' nn/>']]),
+    'ovr-imported': (['nn/ka=o2'], ['%import vfq_a', ['<', W('t'), ' nn>'], 'ka o2', ['</', ['=', 't'], '>'], '<tb/>']),
 }
 SEQS_Q = [['plain'], ['mutual'], ['mutual-2'], ['import-then-use'], ['use-before'], ['between'], ['twice'], ['bad-import'], ['nocomp'],
           ['module'], ['in-section'], ['fixed-slot'], ['c-import-use', 'plain'], ['c-import-b', 'c-bad', 'plain'],
@@ -99,6 +109,13 @@ SEQS_Q = [['plain'], ['mutual'], ['mutual-2'], ['import-then-use'], ['use-before
 # every (concrete earlier load, any later load) pair against one schema object
 SEQS_Q += [[a, b] for a in ('c-import-use', 'c-import-b', 'c-bad', 'bad-import') for b in LOADS
            if [a, b] not in SEQS_Q]
+SEQS_Q += [['ovr'], ['ovr-imported'], ['c-import-ab'], ['c-import-ba']]
+SEQS_Q += [[a, b] for a in ('c-import-ab', 'c-import-ba')
+           for b in ('import-then-use', 'use-before', 'plain', 'fixed-slot', 'between')]
+# ONE ConfigLoader object serving the loads of a sequence (the vocabulary of an earlier load of the same
+# loader must not reach a later one either)
+SAME_LOADER = [[a, b] for a in ('c-import-use', 'c-import-b', 'c-import-ab')
+               for b in ('plain', 'use-before', 'import-then-use', 'fixed-slot')]
 SEQS_T = SEQS_Q + [[a, b, c] for a in ('c-import-use', 'c-bad') for b in ('c-import-b', 'c-import-use', 'nocomp')
                    for c in ('import-then-use', 'between', 'twice', 'fixed-slot', 'plain')] + [['c-import-b', 'import-then-use'], ['bad-import', 'c-import-use', 'fixed-slot'],
                    ['c-import-use', 'c-import-use', 'twice'], ['c-bad', 'in-section']]
@@ -151,7 +168,26 @@ class C12(P.TextMixin, Harness):
             # cannot mask a wrong load outcome on the same path
             us.append({'files': files, 'seq': seq, 'check': 'outcome'})
             us.append({'files': files, 'seq': seq, 'check': 'names'})
+            if seq in SAME_LOADER:
+                us.append({'files': files, 'seq': seq, 'check': 'outcome', 'same_loader': True})
+        for u in us:
+            # the hand-edited spelling of a load that carries overrides
+            if any(n in OVERRIDES for n in u['seq']):
+                u['edited'] = [[f[0], self._step_lines(OVERRIDES[n][1], i) if n in OVERRIDES else f[1]]
+                               for i, (n, f) in enumerate(zip(u['seq'], u['files']))]
         return us
+
+    @staticmethod
+    def _step_lines(tmpl, i):
+        lines = []
+        for line in tmpl:
+            if isinstance(line, str):
+                lines.append(line)
+            else:
+                lines.append([(p if isinstance(p, str) else
+                               ([p[0], p[1], '%s%d' % (p[2], i)] if len(p) == 3 else [p[0], '%s%d' % (p[1], i)]))
+                              for p in line])
+        return lines
 
     def inputs(self, eng, unit):
         return self.text_inputs(eng, unit)
@@ -164,10 +200,18 @@ class C12(P.TextMixin, Harness):
         schema = ZConfig.loadSchemaFile(io.StringIO(XML))
         names0 = [schema.gettype(a).getsubtypenames() for a in ('aa', 'ab')]
         out = []
-        for name, lines in files:
+        loader = None
+        if unit.get('same_loader'):
+            import ZConfig.loader
+            loader = ZConfig.loader.ConfigLoader(schema)
+        for step, (name, lines) in zip(unit['seq'], files):
             with common.env_scope(common.all_concrete(inp), {}):
                 try:
-                    cfg, _ = ZConfig.loadConfigFile(schema, common.make_file(lines), P.BASE + name)
+                    if loader is not None:
+                        cfg, _ = loader.loadFile(common.make_file(lines), P.BASE + name)
+                    else:
+                        cfg, _ = ZConfig.loadConfigFile(schema, common.make_file(lines), P.BASE + name,
+                                                        OVERRIDES[step][0] if step in OVERRIDES else ())
                     o = ('ok', P.walk(cfg))
                 except ZConfig.ConfigurationError:
                     o = ('reject',)
@@ -179,7 +223,7 @@ class C12(P.TextMixin, Harness):
 
     def expect(self, unit, inp, real):
         from ..oracles import linegrammar as G, conformance as CF
-        files = self.text_files(unit, inp)
+        files = self.text_files(unit, inp, 'edited' if 'edited' in unit else 'files')
         out = []
         for name, lines in files:
             g = G.parse(lines, 'record', want_lines=True)
@@ -206,6 +250,12 @@ class C12(P.TextMixin, Harness):
         return real[1][-1][0]
 
     def finding(self, unit, inp, real, exp):
+        # F20: an override addressed to a section of an %import-ed type is refused
+        if unit['check'] == 'outcome' and 'ovr-imported' in unit['seq'] and not unit.get('same_loader'):
+            bad = [i for i, (r, e) in enumerate(zip(_j(real[1]), _j(exp[1]))) if r != e]
+            if bad and all(unit['seq'][i] == 'ovr-imported' and str(inp.get('h_t%d' % i, '')).lower() in ('pa', 'pe')
+                           and _j(real[1])[i] == ['reject'] and _j(exp[1])[i][0] == 'ok' for i in bad):
+                return 'F20'
         # F10: outcomes all right, only the implementer names of the shared abstract types grew
         if unit['check'] == 'names' and _j(real[2]) == _j(exp[2]) and _j(real[3]) != _j(exp[3]):
             grown = all(set(b) <= set(a) for a, b in zip(real[3], exp[3]))
